@@ -50,10 +50,6 @@ End StmtInd.
 (* ------------------------------------------------------------------------------------------ *)
 (* the three entry-derived parts of an answer                                                   *)
 
-Definition is_var (i : item) : bool := (it_kind i =? kind_variable)%N.
-Definition is_fun (i : item) : bool := (it_kind i =? kind_function)%N.
-Definition is_struct (i : item) : bool := (it_kind i =? kind_struct)%N.
-
 Definition vars_ok (l : option ltable) (items : list item) : Prop :=
   filter is_var items = [] \/ exists lt, l = Some lt /\ filter is_var items = search_variables lt.
 Definition funs_ok (g : gtable) (items : list item) : Prop :=
@@ -361,4 +357,34 @@ Lemma toplevel_no_entries g :
 Proof.
   unfold new_global_declaration. rewrite !filter_app.
   destruct (lookup g s_main) as [[?|?]|]; repeat split; reflexivity.
+Qed.
+
+(* ------------------------------------------------------------------------------------------ *)
+(* the full functional statement of C16 on the model, and its refutation                        *)
+
+(* In a document without diagnostics, at every cursor position of one of the four classes
+   ([position_class]: statement start or the gap in front of a closing brace inside a procedure body;
+   behind `:=` or behind a `(` of a body; behind `:` in a procedure declaration; between / before /
+   behind the global declarations - each including the position directly behind the token and
+   positions behind comments) the answer is what the property prescribes ([meets]). *)
+Definition completion_full_statement : Prop :=
+  forall t d line col c,
+    new_doc t = Done d -> doc_errors d = Done [] ->
+    position_class d (get_insertion_index line col (d_text d)) = Some c ->
+    meets d c (propose d line col) = true.
+
+(* `proc main() { var x: int; x :=1; }` at 0:30, directly behind `:=`: the answer is `null` *)
+Definition refute_text : text :=
+  [112; 114; 111; 99; 32; 109; 97; 105; 110; 40; 41; 32; 123; 32; 118; 97; 114; 32; 120; 58; 32; 105; 110; 116; 59;
+   32; 120; 32; 58; 61; 49; 59; 32; 125]%N.
+
+Lemma completion_full_statement_refuted : ~ completion_full_statement.
+Proof.
+  intros H.
+  destruct (new_doc refute_text) as [d| |] eqn:Ed; [|vm_compute in Ed; discriminate|vm_compute in Ed; discriminate].
+  assert (He : doc_errors d = Done []) by (vm_compute in Ed; injection Ed as <-; vm_compute; reflexivity).
+  destruct (position_class d (get_insertion_index 0 30 (d_text d))) as [c|] eqn:Ec.
+  2:{ vm_compute in Ed. injection Ed as <-. vm_compute in Ec. discriminate. }
+  pose proof (H refute_text d 0%N 30%N c Ed He Ec) as Hm.
+  vm_compute in Ed. injection Ed as <-. vm_compute in Ec. injection Ec as <-. vm_compute in Hm. discriminate.
 Qed.
